@@ -100,6 +100,26 @@ fn image_format(v: &Value) -> ImageFormat {
     }
 }
 
+/// A data source that delivers at most `chunk` bytes per read call (0 = everything at once), like a pipe, a
+/// partly consumed buffered reader or two chained readers. The bytes delivered are the same.
+pub struct Pieces<'a> {
+    pub data: &'a [u8],
+    pub pos: usize,
+    pub chunk: usize,
+}
+impl std::io::Read for Pieces<'_> {
+    fn read(&mut self, buf: &mut [u8]) -> std::io::Result<usize> {
+        let left = self.data.len() - self.pos;
+        let mut n = left.min(buf.len());
+        if self.chunk > 0 {
+            n = n.min(self.chunk);
+        }
+        buf[..n].copy_from_slice(&self.data[self.pos..self.pos + n]);
+        self.pos += n;
+        Ok(n)
+    }
+}
+
 /// Run the writer part of a program against `dev`. Every API call becomes one trace event.
 pub fn run_writer(prog: &Value, dev: &Dev, t: &mut TraceOut) -> WriteOutcome {
     let mut out = WriteOutcome { all_ok: true, readable: false, finalize_called: false, panicked: false, blobs: vec![] };
@@ -172,7 +192,8 @@ pub fn run_writer(prog: &Value, dev: &Dev, t: &mut TraceOut) -> WriteOutcome {
             }
             "blob" => {
                 let data = pat_data(step["salt"].as_u64().unwrap_or(0) as usize, step["len"].as_u64().unwrap_or(0) as usize);
-                let r = catch(|| w.add_blob(&mut Cursor::new(&data)));
+                let chunk = step["src_chunk"].as_u64().or(prog["src_chunk"].as_u64()).unwrap_or(0) as usize;
+                let r = catch(|| w.add_blob(&mut Pieces { data: &data, pos: 0, chunk }));
                 let res = match r {
                     Ok(Ok(b)) => {
                         out.blobs.push((b.offset, b.length));
@@ -372,8 +393,9 @@ pub fn run_writer(prog: &Value, dev: &Dev, t: &mut TraceOut) -> WriteOutcome {
                     let fmt = image_format(&rep["fmt"]);
                     let (w_, h_) = (p["width"].as_u64().unwrap_or(1) as u32, p["height"].as_u64().unwrap_or(1) as u32);
                     let g = |k: &str| if p[k].is_null() { 0.0 } else { get_f64(&p[k]) };
-                    let mut dcur = Cursor::new(&data);
-                    let mut mcur = mask.as_ref().map(Cursor::new);
+                    let chunk = step["src_chunk"].as_u64().or(prog["src_chunk"].as_u64()).unwrap_or(0) as usize;
+                    let mut dcur = Pieces { data: &data, pos: 0, chunk };
+                    let mut mcur = mask.as_ref().map(|m| Pieces { data: m, pos: 0, chunk });
                     let props_tr;
                     let r = match kind.as_str() {
                         "visual" => {
